@@ -1,5 +1,6 @@
 import PdshVerif.Base.Hex
 import PdshVerif.Hostlist.Cli
+import PdshVerif.Hostlist.CliRefuse
 import PdshVerif.Hostlist.Probed
 import PdshVerif.Hostlist.Spec
 import Driver.Util
@@ -66,6 +67,23 @@ def cliAnswer (s : Str) (limit : Nat) : String :=
       let b := namesField (iterAll cfg h (limit + 1)) limit
       s!"ok | {h.count} | {a} | " ++ (if a = b then "=" else b)
 
+/-- `-w ARG` through the REPAIRED opt.c (d1c94df: a word that yields nothing is refused, quoted):
+    `badword:<hex of the quoted word>`; otherwise the answer format of `cliAnswer` -/
+def cliAnswerR (s : Str) (limit : Nat) : String :=
+  match cliTargetsR cfg s with
+  | .refused w => "badword:" ++ Hex.encodeChars w
+  | .fatal _ f => s!"fatal:{fatalClass f}"
+  | .ub w => "ub:" ++ (w.replace " " "_")
+  | .diverge => "diverge"
+  | .unsupported => "unsupported"
+  | .targets h =>
+    match shiftAll h (limit + 1) with
+    | none => "ub:shift_no_range_record"
+    | some sh =>
+      let a := namesField sh limit
+      let b := namesField (iterAll cfg h (limit + 1)) limit
+      s!"ok | {h.count} | {a} | " ++ (if a = b then "=" else b)
+
 def stepModel (st : Option HL) (line : String) : Option HL × String :=
   match Driver.words line, st with
   | ["probe", hx, lim], _ | ["fprobe", hx, lim], _ | ["fprobe", hx, lim, _], _ =>
@@ -75,6 +93,10 @@ def stepModel (st : Option HL) (line : String) : Option HL × String :=
   | ["cli", hx, lim], _ =>
     match Hex.decodeToChars hx, lim.toNat? with
     | some s, some l => (st, cliAnswer s l)
+    | _, _ => (st, "bad-op")
+  | ["clir", hx, lim], _ =>
+    match Hex.decodeToChars hx, lim.toNat? with
+    | some s, some l => (st, cliAnswerR s l)
     | _, _ => (st, "bad-op")
   | ["create", hx], _ =>
     match Hex.decodeToChars hx with
